@@ -360,7 +360,11 @@ def normArgs (mcls : String) (args : List (List ArgTok)) : Option (List (List Ar
   | "ReshapeMeta", [shape] => some [[.lp] ++ shape ++ [.rp], [.lp, .rp]]
   -- ArrayType.__getitem__: key = (dtype, shape)
   | "Array", [dtype, shape] => some [dtype, shape]
-  | "Bint", [size] => some [size, [.lp, .rp]]
+  -- BintType.__getitem__: `Bint[n]` -> (n, ()); `Bint[n, s1, ..]` (a tuple) -> (n, (s1, ..))
+  | "Bint", [g] =>
+    match g with
+    | .lp :: sz :: rest => if rest = [] then Option.none else some [[sz], .lp :: rest]
+    | _ => some [g, [.lp, .rp]]
   | "Reals", as => some [[.str "real"], [.lp] ++ as.flatten ++ [.rp]]
   -- ProductDomain.__getitem__: key = the tuple of domains itself
   | "Product", as => some as
